@@ -22,7 +22,14 @@ StepGet == /\ Ev.a = "getlog" /\ UNCHANGED <<lg, sb>>
                 LET r == GetLog(lg, Ev.index) IN
                 IF "panic" \in DOMAIN Ev THEN {}
                 ELSE IF r.found # Ev.found THEN {Tag("getlog: presence differs from the model")}
-                ELSE IF r.found /\ r.e # Ent(Ev.entry) THEN {Tag("getlog: entry differs from what was stored")} ELSE {}
+                ELSE IF r.found /\ r.e # Ent(Ev.entry)
+                     THEN (IF "reused" \in DOMAIN Ev
+                           (* decoding into a struct that still holds another entry keeps that entry's fields where
+                              the stored one is empty (msgpack decode semantics); hashicorp/raft always passes a zero
+                              struct, so this is a diagnostic, not a violation *)
+                           THEN {"D15|" \o ToString(l) \o "|getlog into a re-used struct keeps stale fields"}
+                           ELSE {Tag("getlog: entry differs from what was stored")})
+                     ELSE {}
 StepDel == /\ Ev.a = "delrange" /\ lg' = DeleteRange(lg, Ev.min, Ev.max) /\ UNCHANGED sb
            /\ viol' = viol \cup Err(Ev) \cup Pan(Ev)
 StepFirst == /\ Ev.a = "first" /\ UNCHANGED <<lg, sb>>
